@@ -322,11 +322,13 @@ func RunTask(t *Task) (res *Result) {
 				res.OpName = cl.reqs[0].OpName
 				res.Query = cl.reqs[0].Query
 				if cl.reqs[0].Variables != nil {
+					resetCalls()
 					b, err := json.Marshal(cl.reqs[0].Variables)
 					if err != nil {
 						res.VarErr = err.Error()
 					}
 					res.Variables = b
+					res.UserCallsMarshal = snapCalls()
 				}
 			}
 			if len(outs) > 0 {
